@@ -26,7 +26,7 @@ CFG = dict(
                          "clause:re-arm:non-rearming-input": 40000, "clause:expiry-iff:hold-fired": 15000,
                          "clause:negotiated:keepalive-fired": 30000, "reach:established": 4000,
                          "random:histories": 2000, "exhaustive:pair-role-combinations-completed": 20}),
-    quick=[e2("exh", "event::verif::c08::run", 4, 120, part="exhaustive", nshards=4, depth=6),
+    quick=[e2("exh", "event::verif::c08::run", 4, 300, part="exhaustive", nshards=4, depth=6),
            e2("rnd", "event::verif::c08::run", 1, 60, part="random", random=10000)],
     thorough=[e2("exh", "event::verif::c08::run", 16, 1200, part="exhaustive", nshards=16, depth=8),
               e2("rnd", "event::verif::c08::run", 4, 600, part="random", random=100000),
